@@ -29,6 +29,8 @@ func checkC15(c *Ctx) {
 	paddingBounded(c, "bounded")
 	c15BoundedIndex(c)
 	c15NonNil(c)
+	c15MustCalls(c)
+	c15RuneLenGuard(c)
 	c.NotCovered("index-out-of-range / nil dereference / failed type assertion on arbitrary damaged input (value reasoning)")
 	c.NotCovered("in-bounds source ranges of diagnostics")
 	c.NotCovered("progress of byte-level scanners (Ragel machines, json scanner): arithmetic facts")
@@ -732,4 +734,203 @@ func c15NonNil(c *Ctx) {
 	}
 	c.Floor("nonnil uses", n, 30, "unchecked uses of same-package results in the front ends")
 	c.Assumption(fmt.Sprintf("nonnil: %d uses of results that are neither provably non-nil nor reachable by an explicit nil (parameters with unknown callers, loaded fields) are not decided", skipped))
+}
+
+// R12 must.calls: no panicking "Must" constructor on data that comes from the input.
+func c15MustCalls(c *Ctx) {
+	c.Rule("R12 must.calls: in the front ends and evaluators (hcl, hclsyntax, json, hcldec, hclwrite, ext/…) no function from outside the module whose name starts with Must (cty.MustParseNumberVal, regexp.MustCompile, …) is called with an argument that is not a compile-time constant: such a function panics exactly where its plain sibling returns an error, and what the existing code does with that error (an 'Invalid number' diagnostic, say) is part of being total; a number with a huge exponent passes the JSON grammar and still fails cty's parser")
+	n, total := 0, 0
+	for _, fn := range c.P.pkgFuncs(c.Scope("hcl", "hclsyntax", "json", "hcldec", "hclwrite", "ext/dynblock", "ext/typeexpr", "ext/userfunc", "ext/tryfunc", "ext/customdecode", "ext/transform")...) {
+		for _, b := range fn.Blocks {
+			for _, ins := range b.Instrs {
+				call, ok := ins.(*ssa.Call)
+				if !ok {
+					continue
+				}
+				total++
+				cal := call.Call.StaticCallee()
+				if cal == nil || inModule(cal) || !strings.HasPrefix(cal.Name(), "Must") || len(cal.Name()) < 5 {
+					continue
+				}
+				allConst := true
+				for _, a := range call.Call.Args {
+					if _, ok := a.(*ssa.Const); !ok {
+						allConst = false
+					}
+				}
+				n++
+				c.Sites++
+				c.Fn(FuncName(fn))
+				c.Check(allConst, "must.calls", fmt.Sprintf("%s:call[%s]", FuncName(fn), cal.Name()), call.Pos(), "constant arguments only",
+					cal.Name()+" panics on an argument its plain sibling rejects with an error, and the argument is not a constant: some input reaches the panic")
+			}
+		}
+	}
+	// zero sites on the reference tree: the floor is on what was scanned
+	c.Floor("must.calls calls scanned", total, 3500, "all call instructions of the packages in scope")
+	_ = n
+}
+
+// R13 runelen.guard: utf8.RuneLen's -1 is handled before the result is used as a length.
+func c15RuneLenGuard(c *Ctx) {
+	c.Rule("R13 runelen.guard: where the result of utf8.RuneLen(r) is used in slice-bound or index arithmetic (`buf[len(buf)-l:]`), either r is structurally a valid rune (yielded by ranging over a string or by a utf8.Decode* function, at every call site for a parameter) or the use is dominated by a test of that result against -1 / 0 that leaves through the other edge: RuneLen returns -1 for surrogate halves and values above U+10FFFF, and `len(buf)-(-1)` is one past the end")
+	cg := c.P.CallGraph()
+	var validRune func(v ssa.Value, d int) bool
+	validRune = func(v ssa.Value, d int) bool {
+		if d > 4 {
+			return false
+		}
+		switch x := v.(type) {
+		case *ssa.Const:
+			if k, ok := constInt(x); ok {
+				return k >= 0 && k <= 0x10FFFF && !(k >= 0xD800 && k <= 0xDFFF)
+			}
+		case *ssa.Extract:
+			switch t := x.Tuple.(type) {
+			case *ssa.Next:
+				return t.IsString && x.Index == 2
+			case *ssa.Call:
+				if cal := t.Call.StaticCallee(); cal != nil && cal.Pkg != nil && cal.Pkg.Pkg.Path() == "unicode/utf8" && strings.HasPrefix(cal.Name(), "Decode") && x.Index == 0 {
+					return true
+				}
+			}
+		case *ssa.Phi:
+			for _, e := range x.Edges {
+				if !validRune(e, d+1) {
+					return false
+				}
+			}
+			return true
+		case *ssa.Parameter:
+			fn := x.Parent()
+			if fn.Object() != nil && fn.Object().Exported() {
+				return false
+			}
+			node := cg.Nodes[fn]
+			if node == nil || len(node.In) == 0 {
+				return false
+			}
+			idx := -1
+			for i, p := range fn.Params {
+				if p == x {
+					idx = i
+				}
+			}
+			for _, in := range node.In {
+				if in.Site == nil || idx < 0 || idx >= len(in.Site.Common().Args) || in.Site.Common().IsInvoke() {
+					return false
+				}
+				if !validRune(in.Site.Common().Args[idx], d+1) {
+					return false
+				}
+			}
+			return true
+		}
+		return false
+	}
+	n := 0
+	for _, fn := range c.P.pkgFuncs(c.Scope("hcl", "hclsyntax", "json", "hcldec", "hclwrite")...) {
+		for _, b := range fn.Blocks {
+			for _, ins := range b.Instrs {
+				call, ok := ins.(*ssa.Call)
+				if !ok {
+					continue
+				}
+				cal := call.Call.StaticCallee()
+				if cal == nil || cal.Pkg == nil || cal.Pkg.Pkg.Path() != "unicode/utf8" || cal.Name() != "RuneLen" {
+					continue
+				}
+				// uses in bound / index arithmetic
+				var uses []ssa.Instruction
+				seen := map[ssa.Value]bool{}
+				var fwd func(v ssa.Value)
+				fwd = func(v ssa.Value) {
+					if seen[v] || v.Referrers() == nil {
+						return
+					}
+					seen[v] = true
+					for _, r := range *v.Referrers() {
+						switch x := r.(type) {
+						case *ssa.BinOp:
+							if x.Op == token.SUB || x.Op == token.ADD {
+								fwd(x)
+							}
+						case *ssa.Convert:
+							fwd(x)
+						case *ssa.Slice:
+							if x.Low == v || x.High == v || x.Max == v {
+								uses = append(uses, x)
+							}
+						case *ssa.IndexAddr:
+							if x.Index == v {
+								uses = append(uses, x)
+							}
+						case *ssa.Index:
+							if x.Index == v {
+								uses = append(uses, x)
+							}
+						}
+					}
+				}
+				fwd(call)
+				if len(uses) == 0 {
+					continue
+				}
+				n++
+				c.Sites++
+				c.Fn(FuncName(fn))
+				key := fmt.Sprintf("%s:RuneLen[%s]", FuncName(fn), pathName(call.Call.Args[0]))
+				if validRune(call.Call.Args[0], 0) {
+					c.OK("runelen.guard", key, call.Pos(), "the rune comes from decoding a string: always encodable")
+					continue
+				}
+				guarded := func(at *ssa.BasicBlock) bool {
+					for _, ce := range ctlEdges(at) {
+						bo, ok := ce.iff.Cond.(*ssa.BinOp)
+						if !ok || bo.X != ssa.Value(call) {
+							continue
+						}
+						k, isC := constInt(bo.Y)
+						if !isC {
+							continue
+						}
+						// the edge taken must exclude -1
+						excl := false
+						switch bo.Op {
+						case token.EQL:
+							excl = k == -1 && !ce.onTrue
+						case token.NEQ:
+							excl = k == -1 && ce.onTrue
+						case token.LSS:
+							excl = (k == 0 || k == 1) && !ce.onTrue
+						case token.LEQ:
+							excl = (k == -1 || k == 0) && !ce.onTrue
+						case token.GTR:
+							excl = (k == -1 || k == 0) && ce.onTrue
+						case token.GEQ:
+							excl = (k == 0 || k == 1) && ce.onTrue
+						}
+						if excl {
+							return true
+						}
+					}
+					return false
+				}
+				ok2 := true
+				var badPos token.Pos
+				for _, u := range uses {
+					if !guarded(u.Block()) {
+						ok2 = false
+						badPos = u.Pos()
+					}
+				}
+				if !badPos.IsValid() {
+					badPos = call.Pos()
+				}
+				c.Check(ok2, "runelen.guard", key, badPos, "used as a length only after -1 was excluded",
+					"the result of utf8.RuneLen is used in a slice bound without a test that excludes -1, and its argument is not known to be an encodable rune: a surrogate half or a value above U+10FFFF makes the bound exceed the slice (panic)")
+			}
+		}
+	}
+	c.Floor("runelen.guard uses", n, 1, "the \\u decoder of ParseStringLiteralToken and hclwrite.appendRune")
 }
